@@ -119,7 +119,7 @@ pub fn apply_real(cp: &mut ControlPoints, op: &Op) {
     }
 }
 
-const PROBES: [f64; 12] = [-2.0, -1.0, -0.5, -0.0, 0.0, 0.25, 0.5, 1.0, 1.5, 2.0, 3.0, 1e9];
+const PROBES: [f64; 16] = [-2.0, -1.0, -0.5, -0.0, 0.0, 5e-18, 1e-17, 0.25, 0.5, 1.0, 1.0000000000000002, 1.0000000000000004, 1.5, 2.0, 3.0, 1e9];
 
 fn strictly_increasing(ts: impl Iterator<Item = f64>) -> bool {
     let v: Vec<f64> = ts.collect();
@@ -190,8 +190,15 @@ pub fn check(real: &ControlPoints, r: &RefCp) -> Option<(String, String)> {
     None
 }
 
+/// times that differ by less than any tolerance a sloppy comparison might use: they are different times
+const NEAR_TIMES: [f64; 4] = [0.0, 1e-17, 1.0, 1.0000000000000002];
+
 pub fn alphabet(tier: Tier) -> Vec<Op> {
     let times: &[f64] = tier.pick(&[-1.0, 0.0, -0.0, 1.0, 2.0], &[-1.0, 0.0, -0.0, 0.5, 1.0, 2.0]);
+    alphabet_over(times, tier.thorough())
+}
+
+pub fn alphabet_over(times: &[f64], more_values: bool) -> Vec<Op> {
     let sig = TimeSignature::new_simple_quadruple();
     let mut ops = Vec::new();
     for &time in times {
@@ -206,7 +213,7 @@ pub fn alphabet(tier: Tier) -> Vec<Op> {
         let mut dv = vec![(1.0, true), (2.0, true)];
         let mut ev = vec![(false, 1.0), (true, 1.0)];
         let mut sv = vec![(SampleBank::Normal, 100, 0), (SampleBank::Soft, 50, 0)];
-        if tier.thorough() {
+        if more_values {
             dv.push((1.0, false));
             ev.push((false, 2.0));
             sv.push((SampleBank::Normal, 100, 2));
@@ -371,6 +378,14 @@ pub fn run(tier: Tier) -> i32 {
         res.per_depth.extend(r.per_depth);
         res.capped_at_depth = res.capped_at_depth.or(r.capped_at_depth);
     }
+    if acc.viols.is_empty() {
+        // times that are distinct but closer than any epsilon
+        let near = alphabet_over(&NEAR_TIMES, false);
+        let model = Model { ops: std::sync::Arc::new(near) };
+        let r = e2::run_opts("C13", model, tier.pick(&[4], &[5]), 900_000_000, true, &mut acc);
+        res.per_depth.extend(r.per_depth);
+        res.capped_at_depth = res.capped_at_depth.or(r.capped_at_depth);
+    }
     // every generated transition is a real call compared with the reference
     acc.evals += acc.transitions;
     // distinct non-trivial: counted as distinct canonical states (each holds a
@@ -380,7 +395,8 @@ pub fn run(tier: Tier) -> i32 {
     let exhaustive = res.capped_at_depth.is_none();
     let summary = Summary {
         rule: format!(
-            "stateright BFS over (real ControlPoints, linear-scan reference); {n_ops} add operations; \
+            "stateright BFS over (real ControlPoints, linear-scan reference); {n_ops} add operations, then a second search over the \
+             32 operations at the nearly-equal times 0, 1e-17, 1, 1+2^-52; \
              after every transition: lists == reference, strictly increasing times, four lookups at {} probe \
              times == reference. A case is one transition; distinct_nontrivial = distinct canonical product states \
              (each holds a different pair of list contents) as counted by the checker",
@@ -395,7 +411,7 @@ pub fn run(tier: Tier) -> i32 {
             .unwrap_or_default(),
         assumptions: vec![
             "64-bit state fingerprints do not collide".into(),
-            "times limited to the alphabet (no -0.0, NaN or infinities)".into(),
+            "times limited to the alphabets (no NaN or infinities)".into(),
         ],
     };
     finish(&run, acc, summary)
